@@ -82,14 +82,26 @@ def BLTD.setConst (name : String) (t : T) : BLTD → BLTD
   | .unhooked sd ms => .unhooked sd (ms.zipIdx.map (fun (mj : TD × Nat) =>
       ⟨mj.1.batch, mj.1.names, (mj.1.leaves.filter (fun p => p.1 != name)) ++ [(name, select t sd mj.2)]⟩))
 
-/-- one operation of a program on a lazy stack: a member-wise derivation or the write of an un-batched value -/
+/-- `lazy.set(dst, g(lazy.get(src)))` inside the vmapped function: on the hidden-stack form `get` wraps the stacked
+entry with `hook_out` (batched over the stacked tensordicts), the computation runs per sample, and `set` un-batches the
+value with `hook_in` and distributes it over the stacked tensordicts — the stack STAYS hooked (unlike a derivation);
+member-wise form: every member is set.  `op` is the per-sample effect on a tensordict. -/
+def BLTD.getSet (op : TOp) : BLTD → BLTD
+  | .hooked sd ms lvl => .hooked sd (ms.map op.run) lvl
+  | .plain sd ms => .plain sd (ms.map op.runB)
+  | .unhooked sd ms => .unhooked sd (ms.map op.run)
+
+/-- one operation of a program on a lazy stack: a member-wise derivation, the write of an un-batched value, or a
+read-compute-write through the hooks -/
 inductive LOp where
   | derive (op : TOp)
   | setConst (name : String) (t : T)
+  | getSet (op : TOp)
 
 def BLTD.runL (b : BLTD) : LOp → BLTD
   | .derive op => b.derive op
   | .setConst name t => b.setConst name t
+  | .getSet op => b.getSet op
 
 def vmapLazyL (p : List LOp) (i : Nat) (o : Int) (level : Nat) (l : LTD) : LTD :=
   let b := p.foldl BLTD.runL (addBDLazy i level l)
